@@ -15,9 +15,10 @@ ATTRS = ["a", "b"]
 VARS = ["x", "y", "n", "s"]
 FUNCS = ["NUMBER", "ARGS", "IDENT", "FAIL", "NONE", "CUSTOM"]
 TEXTS = ["hello", "x", " and ", "é", "Total: ", ".", "a b", "zZ", "-", "1", "😀"]
-STRS = ["", "lit", "a b", "\\u0041", "\\\\", "é", "one", "other", "1"]
+STRS = ["", "lit", "a b", "\\u0041", "\\\\", "é", "one", "other", "1", "inf", "NaN", "infinity", "nan", "Infinity", "1e3"]
 NUMS = ["0", "1", "2", "1.0", "1.50", "-1", "3", "11", "21", "100", "0.5", "007"]
-KEYS = ["one", "other", "few", "two", "zero", "many", "1", "2", "1.0", "lit", "a", "x", "0", "3"]
+KEYS = ["one", "other", "few", "two", "zero", "many", "1", "2", "1.0", "lit", "a", "x", "0", "3", "inf", "NaN", "infinity", "nan",
+        "Infinity", "e1", "INF"]
 
 
 class GR:
@@ -133,7 +134,7 @@ class GR:
             return "."
         out = []
         for k in ks:
-            v = r.choice(["s" + hx(r.choice(["val", "one", "other", "lit", "é", "1", "", "a b"])), "i1", "i2", "i5", "i21", "i0", "i-3",
+            v = r.choice(["s" + hx(r.choice(["val", "one", "other", "lit", "é", "1", "", "a b", "inf", "NaN", "infinity", "nan", "Infinity"])), "i1", "i2", "i5", "i21", "i0", "i-3",
                           "n1.5/-", "n1/1", "n1/0", "n2/2", "t" + hx("1.0"), "t" + hx("1.50"), "t" + hx("abc"), "f0.5",
                           "c" + hx("cv"), "z", "u7", "o" + hx("owned")])
             out.append("%s=%s" % (hx(k), v))
@@ -217,6 +218,7 @@ def handwritten():
         ("m0 = { FAIL() } { NONE() } { CUSTOM(\"q\") } { IDENT($x) } { IDENT() } { ARGS(1, \"s\", $x, x: 1) }\n", "%s=c%s" % (hx("x"), hx("cv"))),
         ("m0 = { \"\\u0041\\\\\" } { \"\\uD800\" } {\"é\"}\n", "."),
         ("m0 = { $x ->\n [a] A\n [b] B\n }\n", "."),
+        ("m0 = { $s ->\n [inf] I\n [NaN] N\n [infinity] Y\n *[other] O\n }\nm1 = { \"inf\" ->\n [inf] I\n *[o] O\n }\nm2 = { \"NaN\" ->\n [nan] l\n [NaN] N\n *[o] O\n }\nm3 = { $n ->\n [inf] I\n [one] 1\n *[o] O\n }\n", "%s=s%s&%s=i1" % (hx("s"), hx("infinity"), hx("n"))),
     ]
     for (res, args) in progs:
         for iso in (0, 1):
